@@ -83,9 +83,16 @@ func roundTrip(s smbgen.Struct, rels []smbgen.Relation, mode smbgen.Mode, iter i
 		r.Violation(s.Name+":marshal-panic:"+mon.PanicClass(pv), fmt.Sprintf("Marshal panicked: %v at %s", pv, mon.TopLibFrame(st)), cs(nil))
 		return
 	}
+	if err != nil && maxLen < 0 && byteTotal(reflect.ValueOf(c).Elem()) > 65000 {
+		r.Count("big_assignments_refused_over_64k", 1) // does not fit a 16-bit byte count: refusing is right
+		return
+	}
 	if err != nil {
 		r.Violation(s.Name+":marshal-error", "Marshal of an internally consistent assignment failed: "+err.Error(), cs(nil))
 		return
+	}
+	if maxLen < 0 && len(b1) > 32767 {
+		r.Count("big_assignments_encoded_over_32k", 1)
 	}
 	for _, tag := range held.Hold(b1, s.Name) {
 		r.Violation(tag+":held-output-changed", "bytes returned by an earlier Marshal of "+tag+" changed after later Marshal calls (output aliases a reused buffer)", cs(nil))
@@ -106,6 +113,14 @@ func roundTrip(s smbgen.Struct, rels []smbgen.Relation, mode smbgen.Mode, iter i
 	for _, p := range diffs {
 		r.Violation(s.Name+":field:"+p, fmt.Sprintf("field %s differs after Unmarshal(Marshal(S)): sent %v", p, describe(reflect.ValueOf(c).Elem(), p)), cs(map[string]any{"wire": mon.FullHex(b1), "decoded": fmt.Sprintf("%+v", reflect.ValueOf(d).Elem().Interface())}))
 	}
+	if len(diffs) == 0 {
+		// the decoded structure is what a caller keeps: later decodes of other commands (into
+		// other structures) must not change it. Held as a clone-independent pair (sent, decoded).
+		kd := s.New()
+		if _, e := kd.Unmarshal(append([]byte{}, b1...)); e == nil {
+			heldDecoded.keep(s.Name, c, kd)
+		}
+	}
 	if len(diffs) == 0 && iter%4 == 0 {
 		decodeEditEncode(s, rels, d, iter)
 	}
@@ -125,6 +140,66 @@ func roundTrip(s smbgen.Struct, rels []smbgen.Relation, mode smbgen.Mode, iter i
 	if iter == 0 && mode == smbgen.ModeDistinct && (s.Name[0] == 'R' || s.Name[0] == 'N') {
 		r.Sample(map[string]any{"struct": s.Name, "mode": "distinct", "wire": mon.Hex(b1)})
 	}
+}
+
+// decodedRing keeps the last decoded structures beside the assignment they were decoded from;
+// each is compared again when it leaves the ring and at the end of the run.
+type decodedPair struct {
+	name      string
+	sent, got ci.CommandInterface
+}
+
+type decodedRing struct{ buf []decodedPair }
+
+var heldDecoded decodedRing
+
+func (h *decodedRing) verify(p decodedPair, when string) {
+	r.Eval(1)
+	if diffs := smbgen.Diff(reflect.ValueOf(p.sent).Elem(), reflect.ValueOf(p.got).Elem()); len(diffs) > 0 {
+		r.Violation(p.name+":held-decoded-changed", fmt.Sprintf("a %s decoded earlier (equal to what was sent at the time) differs in %v %s", p.name, diffs, when), map[string]any{"struct": p.name, "fields": fmt.Sprintf("%+v", reflect.ValueOf(p.sent).Elem().Interface())})
+	}
+}
+
+func (h *decodedRing) keep(name string, sent, got ci.CommandInterface) {
+	if len(h.buf) >= 24 {
+		h.verify(h.buf[0], "after 24 later decodes")
+		h.buf = h.buf[1:]
+	}
+	h.buf = append(h.buf, decodedPair{name, sent, got})
+}
+
+func (h *decodedRing) final() {
+	for _, p := range h.buf {
+		h.verify(p, "at the end of the run")
+	}
+}
+
+// byteTotal sums the lengths of all byte slices and strings below v.
+func byteTotal(v reflect.Value) int {
+	switch v.Kind() {
+	case reflect.Slice:
+		if v.Type().Elem().Kind() == reflect.Uint8 {
+			return v.Len()
+		}
+		n := 0
+		for i := 0; i < v.Len(); i++ {
+			n += byteTotal(v.Index(i))
+		}
+		return n
+	case reflect.String:
+		return 2 * v.Len()
+	case reflect.Struct:
+		n := 0
+		for i := 0; i < v.NumField(); i++ {
+			n += byteTotal(v.Field(i))
+		}
+		return n
+	case reflect.Ptr:
+		if !v.IsNil() {
+			return byteTotal(v.Elem())
+		}
+	}
+	return 0
 }
 
 // decodeEditEncode: a decoded structure whose byte-slice fields may still point into the
@@ -535,12 +610,16 @@ func main() {
 			if i%50 == 49 {
 				maxLen = 9000 // buffers past 4 KiB and 8 KiB size classes
 			}
+			if i%100 == 73 {
+				maxLen = -1 // one buffer around or beyond 2^15 bytes, the rest small
+			}
 			roundTrip(s, rels, smbgen.ModeRandom, i, maxLen)
 		}
 	}
 	if only == "" {
 		andxIsolation(structs)
 	}
+	heldDecoded.final()
 	sort.Strings(names)
 	r.Extra("structure_names", names)
 	r.Extra("slices_without_relation", unconstrained)
